@@ -36,6 +36,9 @@ type c07Case struct {
 	Pick   int64        `json:"pick"`             // sampling salt
 	Extra  *model.Event `json:"extra,omitempty"`  // event ingested after the restart
 	PreQ   bool         `json:"preQuery"`         // run a filter query first so that it becomes a persistent query
+	// Prior: before the history, an earlier life of the server on the same data directory accepted one event
+	// per index and was killed before any flush (it leaves segment directories without metadata behind)
+	Prior bool `json:"prior,omitempty"`
 }
 
 var indexNames = []string{"c07a", "c07b"}
@@ -50,6 +53,7 @@ func genC07(t *rapid.T) *c07Case {
 	}
 	cs := &c07Case{DS: ds, Card: rapid.SampledFrom([]int{0, 0, 2}).Draw(t, "card"), Sample: pt.Scale(40, 0), Pick: int64(rapid.IntRange(1, 1<<30).Draw(t, "pick"))}
 	cs.PreQ = rapid.IntRange(0, 3).Draw(t, "preQ") == 0
+	cs.Prior = rapid.IntRange(0, 2).Draw(t, "priorLife") == 0
 	pos := 0
 	for pos < n {
 		b := rapid.IntRange(1, n-pos).Draw(t, "batch")
@@ -140,6 +144,32 @@ func execute(c *sut.Client, cs *c07Case, lo, hi uint64) (*runState, error) {
 	return st, nil
 }
 
+const priorVidBase = 900000
+
+// priorEvent is the event an earlier life of the server accepted for index ix and never flushed.
+func priorEvent(ix int, ts uint64) *model.Event {
+	vid := int64(priorVidBase + ix)
+	return &model.Event{Vid: vid, Ts: ts, Doc: model.Node{IsObj: true, Obj: []model.Field{
+		{Name: "_vid", Node: model.LeafNode(model.Int(vid))}, {Name: "vk", Node: model.LeafNode(model.Int(vid))},
+		{Name: "prior", Node: model.LeafNode(model.Str("never flushed"))}}}}
+}
+
+// priorLife runs the earlier life on dataDir: accept one event per index, die by SIGKILL before any flush.
+func priorLife(dataDir string, ts uint64) error {
+	p, err := sut.Start(sut.Options{DataDir: dataDir, Env: map[string]string{"VERIF_LOGLEVEL": "error"}})
+	if err != nil {
+		return pt.Inconclusivef("worker start (prior life): %v", err)
+	}
+	for ix := range indexNames {
+		if _, err := p.Bulk(0, gen.BulkBody(indexNames[ix], []*model.Event{priorEvent(ix, ts)})); err != nil {
+			p.Close()
+			return pt.Inconclusivef("prior life bulk: %v", err)
+		}
+	}
+	p.Kill()
+	return nil
+}
+
 type crashCount struct {
 	Count int64    `json:"count"`
 	Names []string `json:"names"`
@@ -168,7 +198,15 @@ func checkC07(cs *c07Case, o *pt.Obs) error {
 	}
 	// 1. dry run: count the crash points this history executes
 	var cc crashCount
-	err := pt.WithWorker(sut.Options{}, func(c *sut.Client) error {
+	dryDir := pt.NewDataDir()
+	defer pt.CleanupDataDir(dryDir)
+	if cs.Prior {
+		if err := priorLife(dryDir, lo+1); err != nil {
+			return err
+		}
+		o.Class("prior_life_killed_before_first_flush")
+	}
+	err := pt.WithWorker(sut.Options{DataDir: dryDir}, func(c *sut.Client) error {
 		if err := prep(c, 0, true); err != nil {
 			return err
 		}
@@ -243,6 +281,11 @@ func crashAndRecover(cs *c07Case, k int, name string, lo, hi uint64, info map[st
 	dataDir := pt.NewDataDir()
 	defer pt.CleanupDataDir(dataDir)
 	envq := map[string]string{"VERIF_LOGLEVEL": "error"}
+	if cs.Prior {
+		if err := priorLife(dataDir, lo+1); err != nil {
+			return err
+		}
+	}
 	a, err := sut.Start(sut.Options{DataDir: dataDir, Env: envq})
 	if err != nil {
 		return pt.Inconclusivef("worker start: %v", err)
@@ -335,6 +378,8 @@ func crashAndRecover(cs *c07Case, k int, name string, lo, hi uint64, info map[st
 					nPend++
 				case ext[v] != nil:
 					e = ext[v]
+				case cs.Prior && v >= priorVidBase && v < priorVidBase+int64(len(indexNames)):
+					continue // accepted by the earlier life, never flushed: may or may not be there
 				default:
 					return fmt.Errorf("%s: index %s: unexpected record _vid=%d after restart: %v", stage, indexNames[ix], v, r)
 				}
